@@ -71,6 +71,10 @@ private:
     }
 };
 
+// adversarial operator<: descending by key.  Every harness passes an explicit comparator; code under
+// test that falls back to operator< shows at once.
+inline bool operator<(const Tracked& a, const Tracked& b) { return a.k() > b.k(); }
+
 inline int64_t tracked_live() { return rt_cell_get(TC_LIVE); }
 inline int64_t tracked_err_destroy() { return rt_cell_get(TC_ERR_DESTROY); }
 inline int64_t tracked_err_use() { return rt_cell_get(TC_ERR_USE); }
